@@ -16,6 +16,11 @@ CLAIMED = {
    note="As C01. The (success, offset) pair of encoding/json's streaming decoder agrees with the spec on the bounded validation set only.",
    tech="contract-based deductive verification: simulation against a specification transducer, cut-point VCs over go/ssa, z3/cvc5",
    ref="DESIGN.md section 6 (C02)"),
+ "C05": dict(
+   text="Proof for every input that each integer reader succeeds exactly on an RFC 8259 integer literal (no fraction/exponent) whose value fits the type and then returns exactly that value and the offset after the last digit. The value is a 128-bit decimal fold saturating at 2^64 (so 'fits' is decided without overflow), ReadUint64's two loops carry `val == DV(start,p)` as invariants, the wrap test is proved equivalent to 10*val+d >= 2^64, ReadInt64's asymmetric bounds and sign handling and the 32-bit narrowings are postconditions; all arithmetic is 64/128-bit bit-vector arithmetic.",
+   note="Specification = global lets uintok/uintval/intval in /repo/verif_contracts.go + DV axioms (base/step instantiated at read indices, stickiness lemma step discharged). ReadInt/ReadUint: 64-bit arm only. Decode forms via C12.",
+   tech="contract-based deductive verification: loop invariants against a saturating decimal-value spec function, path VCs over go/ssa, z3/cvc5 raced",
+   ref="DESIGN.md section 6 (C05)"),
  "C09": dict(
    text="Proof for every document, call position and accompanying offset: on every path of the real handleArrayValues/handleObjectValues (go/ssa of /repo's tree) through a handler invoke, a non-nil handler error makes the function return that same SSA value with no further invoke; the wrappers pass it through. Handler results are unconstrained 64-bit / error symbols.",
    note="Trusted: go/ssa translation, rjv's SMT semantics, solver unsat answers, Floyd cut-point argument. Invariants at the ~500 machine cut points are inferred (Houdini) and re-verified from scratch on every run.",
@@ -26,6 +31,11 @@ CLAIMED = {
    note="Covers the functions listed in evidence.functions_under_contract; functions not under contract (ValueReader methods, StdLibCompatible*, internal/fp bodies) are listed in DESIGN.md as unverified surroundings. Assumes non-nil Decode targets, A-maxalloc, non-overlapping slice parameters.",
    tech="contract-based deductive verification: safety + termination VCs per cut point over go/ssa, Houdini-inferred invariants re-verified, z3/cvc5",
    ref="DESIGN.md section 6 (C10)"),
+ "C13": dict(
+   text="Proof for every input: NextToken/NextTokenType skip exactly the maximal run of space/tab/CR/LF, classify the next byte by the RFC token table (the 256-entry package tables are re-read from source on every run and every entry is compared inside the proofs), return index+1 and EOF only for empty/all-whitespace input; readNull/readBool (generated machines, all states x all bytes) succeed exactly on null / true / false after whitespace with the offset after the literal and the right value; every reader's success implies the class of the first non-whitespace byte is the class it reads, so at most one Read family accepts any input.",
+   note="ReadFloat64's exclusivity rests on the assumed contract of internal/fp and is not included. Invariants of the literal machines are candidate atoms kept by Houdini and re-verified.",
+   tech="contract-based deductive verification: quantified postconditions over wsrun/tokclass spec functions, cut-point VCs over go/ssa, z3/cvc5",
+   ref="DESIGN.md section 6 (C13)"),
  "C12": dict(
    text="Proof for all ten Decode functions and nullOrBust, for every input and every prior target value: reader succeeds => target = reader's value, same offset, nil error; reader fails and ReadNull succeeds => target unchanged, offset of null, nil error; otherwise target unchanged and non-nil error. Stated over the readers' result functions, so it is exactly 'behaves as the corresponding reader'.",
    note="Relative to: each Read function is a deterministic function of the input bytes (result functions rok/rval/rp). DecodeString's stored value is not compared (strings are not scalars in the VC language).",
@@ -35,8 +45,8 @@ CLAIMED = {
 
 NOT_BUILT = "in reach per DESIGN.md section 6 but its check is not built yet - not claimed"
 NA = {
- "C03": NOT_BUILT, "C04": NOT_BUILT, "C05": NOT_BUILT, "C06": NOT_BUILT, "C07": NOT_BUILT,
- "C08": NOT_BUILT, "C11": NOT_BUILT, "C13": NOT_BUILT, "C14": NOT_BUILT, "C16": NOT_BUILT, "C18": NOT_BUILT, "C19": NOT_BUILT, "C20": NOT_BUILT,
+ "C03": NOT_BUILT, "C04": NOT_BUILT, "C06": NOT_BUILT, "C07": NOT_BUILT,
+ "C08": NOT_BUILT, "C11": NOT_BUILT, "C14": NOT_BUILT, "C16": NOT_BUILT, "C18": NOT_BUILT, "C19": NOT_BUILT, "C20": NOT_BUILT,
  "C15": "needs a full functional contract of generic decoding for arbitrary prior reader state (incl. what sync.Pool.Get may return) and ownership of maps/slices reachable through interface values; not expressible in a quantifier-free bit-vector/array VC generator without inductive datatypes or separation logic (DESIGN.md section 6, C15)",
  "C17": "the functional content is utf8.DecodeRune / string([]rune) / string(rune) runtime intrinsics whose semantics would have to be assumed in exactly the form of the property, and the statement is sequence-valued and, for the slice/map helpers, an induction over interface-typed trees; no contract within reach decides it (DESIGN.md section 6, C17)",
 }
